@@ -227,7 +227,7 @@ class PrefixSort(Sort):
         return (p.base, p.exponent) if p.base else (0, 0), {}
 
     def in_box(self, m):
-        return all(abs(e) <= 90 for e in m.pfx.values())
+        return all(abs(e) <= 90 or abs(e) in (330, 400, 1100) for e in m.pfx.values())
 
 
 class UnitSort(Sort):
@@ -258,6 +258,9 @@ class UnitSort(Sort):
         out.append(("Kilo*Meter", Kilo * Meter, M({10: 3}, {"m": 1}, (10,))))
         out.append(("Milli*Second", Milli * Second, M({10: -3}, {"s": 1}, (10,))))
         out.append(("Kibi*Bit", Kibi * Bit, M({2: 10}, {"bit": 1}, (2,))))
+        P = m.Prefix
+        out.append(("Prefix(10,-330)*m", P(10, -330) * Meter, M({10: -330}, {"m": 1}, (10,))))
+        out.append(("Prefix(10,-400)*m", P(10, -400) * Meter, M({10: -400}, {"m": 1}, (10,))))
         return out
 
     def observe(self, u):
@@ -270,7 +273,7 @@ class UnitSort(Sort):
         return ((p.base, p.exponent) if p.base else (0, 0)), {k: e for k, e in fac.items() if e != 0}
 
     def in_box(self, m):
-        return all(abs(e) <= 12 for e in m.fac.values()) and all(abs(e) <= 120 for e in m.pfx.values())
+        return all(abs(e) <= 12 for e in m.fac.values()) and all(abs(e) <= 120 or abs(e) in (330, 400, 660, 730, 800) for e in m.pfx.values())
 
 
 SORTS = {"dimension": DimSort, "prefix": PrefixSort, "unit": UnitSort}
@@ -324,6 +327,10 @@ def explore(sortname, height, shard, nshards, order, laws_part=None):
         add(n, g, m, 0)
     un = unary_menu(s)
     for h in range(1, height + 1):
+        if order == "define-midway" and h == 2:
+            # a new fundamental dimension is defined while anonymous dimensions (and units that
+            # point at them) already exist: every one of them must stay THE object for its value
+            w.m.Dimension.define("verif midway dimension", "Vmd")
         snapshot = list(reached)
         prev = [r for r in snapshot if r[3] == h - 1]
         if h <= 2:
@@ -480,6 +487,12 @@ def prefix_box(args):
     for e in list(range(-30, 31)):
         if e and (10, e) not in have:
             elems.append((f"Prefix(10,{e})", P(10, e), M({10: e}, {}, (10,))))
+    for e in (-400, -330, -324, -323, 330, 400):
+        # beyond the float range: base**exponent underflows to 0.0 / overflows; identity must
+        # still follow the exponent, not the numeric scale
+        elems.append((f"Prefix(10,{e})", P(10, e), M({10: e}, {}, (10,))))
+    for e in (-1200, -1100, -1075, 1100):
+        elems.append((f"Prefix(2,{e})", P(2, e), M({2: e}, {}, (2,))))
     for e in list(range(-80, 81, 10)) + [1, -1, 3, 7]:
         if e and (2, e) not in have:
             elems.append((f"Prefix(2,{e})", P(2, e), M({2: e}, {}, (2,))))
@@ -530,6 +543,8 @@ def run(rep, tier):
     for sortname in ("dimension", "prefix", "unit"):
         for order in ("forward", "reversed", "rotated"):
             jobs.append(("explore", sortname, 2, 0, 1, order))
+        if sortname in ("dimension", "unit"):
+            jobs.append(("explore", sortname, 2, 0, 1, "define-midway"))
         nl = 12 if sortname == "unit" else 2
         for k in range(nl):
             jobs.append(("explore", sortname, 2, 0, 1, "forward", (k, nl)))
